@@ -377,4 +377,9 @@ pub fn run(args: &Args, out: &mut Out) {
     for (k, v) in g.op_hist.iter() {
         out.add(&format!("op_{k}"), *v);
     }
+    if let Ok(mut l) = crate::gen::CLOSURE_MISMATCH.lock() {
+        for m in l.drain(..) {
+            out.propfail("`in` on a store built by an add_entities history: ancestor set differs from parent reachability", "gen_world", &m);
+        }
+    }
 }
